@@ -21,8 +21,10 @@ RULE = ("Histories and schedules. Hypothesis generates a definition (several bra
         "singleton raises, the stream generator must raise the same exception type at that position and yield "
         "nothing after); in the same step the definition's structural dump and tostring(to_xml_tree()) must equal the "
         "snapshots taken before any parsing; every yielded object is a new object and is scribbled on by the harness after it has been "
-        "recorded (a consumer may do anything with it). The singleton results themselves are judged against the reference "
-        "decoder in C01. Non-trivial: >= 2 generators advanced in non-sequential order over a stream holding >= 1 "
+        "recorded (a consumer may do anything with it). Additionally every stream's output under its own options is "
+        "judged against the reference decoder (unrecognised packets must appear as error objects in their position "
+        "whenever reporting is on, whatever the other options; length-mismatched packets are withheld exactly when "
+        "bad packets are excluded). Non-trivial: >= 2 generators advanced in non-sequential order over a stream holding >= 1 "
         "packets of >= 2 different outcome kinds, one of them unrecognised or length-mismatched.")
 ASSUMPTIONS = ["decoding errors common to stream and singleton are out of this check's reach (left to C01)"]
 EXHAUSTIVE = {"quick": False, "thorough": False}
@@ -151,6 +153,22 @@ def check_case(ctx, case):
         ctx.cls("options " + ",".join(k for k, v in g["opts"].items() if v) or "options none")
     ctx.sample("schedule", {"gens": [{"n": g["n"], "opts": g["opts"]} for g in gens], "schedule": order[:30],
                             "packet kinds": kinds[:8]})
+    # absolute part: what each stream yields under its options, judged against the reference semantics (the
+    # metamorphic part below cannot see an error that stream and singleton runs share, e.g. an unrecognised packet
+    # that is not reported in its position under one particular option combination)
+    for gi, g in enumerate(case["gens"]):
+        if g["opts"]["ccsds_headers_only"] or not g["indices"]:
+            continue
+        idx = [i % len(packets) for i in g["indices"]]
+        pk_g = [packets[i] for i in idx]
+        out, exc, _ = xcheck.run(defn, b"".join(pk_g), len(pk_g), **g["opts"])
+        r = xcheck.compare_run([expects[i] for i in idx], out, exc, g["opts"]["yield_unrecognized_packet_errors"], pk_g,
+                               parse_bad=g["opts"]["parse_bad_pkts"])
+        ctx.cls("streams judged against the reference")
+        if r:
+            return ctx.fail("stream-differs-from-reference",
+                            f"generator {gi} (options {g['opts']}, {len(pk_g)} packets): {r[1]}", case,
+                            bucket="ref:" + r[0].split(" ")[0])
     seen_ids = {}
     for step, gi in enumerate(order):
         g = gens[gi]
